@@ -115,6 +115,18 @@ Theorem portions_fold_topk : forall (all : list tr) (part : N -> N) (k : nat) (f
 Proof. exact reach_topk. Qed.
 Print Assumptions portions_fold_topk.
 
+(* 8b. The tie of 8 to the Go loop.  harness/cmd/tqloop drives the REAL ComplexRequestProcessor.Process (Plan -> complexity estimate ->
+   one TraceQLRequestProcessor.Process per portion) over a scripted database/sql back-end and records, per statement: the portion filter,
+   the cached ids and the lower window bound printed into the SQL text, and the rows the back-end answered.  loop_code (model/TraceqlPortions.v,
+   computed on every recorded run) replays the record against the model: each statement's parameters must be the model's (i, the winners so
+   far, the bound next_from gives), each answer a legitimate top-`limit` selection of the rows visible to that statement.  Code 0 means: the
+   run is a path of `reach`, the answer of Process is its last state, and (by 8) a top-`limit` selection of all matching traces. *)
+Theorem portions_run_is_reach : forall (c : loop_case) (n : N), loop_code c = (0%Z, n, 0%Z, 0%Z) ->
+  exists W f, reach (lc_all c) (part_of (lc_parts c)) (lc_k c) (lc_from0 c) n W f /\ map tid W = lc_final c
+              /\ topk (lc_k c) (U (lc_all c) (part_of (lc_parts c)) (lc_from0 c) n) W.
+Proof. exact loop_code_sound. Qed.
+Print Assumptions portions_run_is_reach.
+
 (* 9. Statement level, layer "selector -> spans": the whole statement of AttrConditionPlanner (the CTE index_search: FROM the
    attribute index, the date/time window and the key/val pre-filter in WHERE, GROUP BY trace_id, span_id, the bit-set HAVING,
    the SELECT list with any(duration), any(timestamp_ns) and the aggregated value), run by the evaluator over ANY consistent
@@ -134,20 +146,21 @@ Proof. exact index_search_layer. Qed.
 Print Assumptions index_search_selects_matching_spans.
 
 (* 10. Layer "group per trace, HAVING, ORDER BY .. LIMIT": the statement of IndexGroupByPlanner (+ the HAVING AggregatorPlanner
-   adds, + the LIMIT of IndexLimitPlanner), run by the evaluator over any typed content T of index_search, returns one row per
+   adds, + the LIMIT of IndexLimitPlanner), run by the evaluator over any typed content T of <p>index_search, returns one row per
    trace -- its id and the first 100 span ids -- for the groups that pass HAVING; with LIMIT k the first k of them in the order
-   of max(timestamp_ns) descending. *)
-Theorem index_grouped_evaluates : forall re_match parse_float hash64 tables rec cte (T : list mspan),
-  env_get "index_search" cte = Some (map mspan_row T) ->
+   of max(timestamp_ns) descending.  For every prefix p of the CTE name ("" for a one-selector search, "_2" .. for an operand of
+   && / ||) and with or without the column max(timestamp_ns) AS max_timestamp_ns that ComplexAnd/OrPlanner add to an operand (wts). *)
+Theorem index_grouped_evaluates : forall re_match parse_float hash64 tables (p : string) (wts : bool) rec cte (T : list mspan),
+  env_get (isx p) cte = Some (map mspan_row T) ->
   forall (hv : option expr) (P : list mspan -> bool),
   match hv with Some h => having_aliases ev_fuel h | None => [] end = [] ->
   (forall h m0 rest, hv = Some h -> In (m0 :: rest) (group_rows same_tr T) ->
-     exists v t, ev re_match parse_float hash64 cte al2 ["trace_id"] ev_fuel true "" (map qrow (m0 :: rest)) (qrow m0) h = Some v
+     exists v t, ev re_match parse_float hash64 cte (al2 wts) ["trace_id"] ev_fuel true "" (map (qrow p) (m0 :: rest)) (qrow p m0) h = Some v
                  /\ truth v = Some t /\ is_true3 t = P (m0 :: rest)) ->
   (hv = None -> forall g, P g = true) ->
   forall withs lim,
-  eval_body re_match parse_float hash64 tables rec cte false (grouped_stmt withs hv lim)
-  = option_map (map g_row) (grouped_answer T P lim).
+  eval_body re_match parse_float hash64 tables rec cte false (grouped_stmt p wts withs hv lim)
+  = option_map (map (g_row wts)) (grouped_answer T P lim).
 Proof. exact grouped_bridge. Qed.
 Print Assumptions index_grouped_evaluates.
 
